@@ -52,6 +52,10 @@ var failingActions = []struct{ class, src string }{
 	{"function-error", `exec("/inc/execfail.jet")`},
 	{"function-error", `includeIfExists("/inc/execfail.jet")`},
 	{"writer-not-last", `raw: "x" | upper`},
+	// output produced by a call inside a condition / an assignment: the statement itself renders nothing
+	{"function-error", `if includeIfExists("/inc/execfail.jet") }}{{ end`},
+	{"function-error", `silentv := includeIfExists("/inc/execfail.jet")`},
+	{"function-error", `if exec("/inc/execfail.jet") }}{{ end`},
 }
 
 func failFuncs() map[string]jet.Func {
@@ -178,7 +182,14 @@ func (g *c13Gen) tryStmt(inBlockWithContent bool) []*mj.Node {
 	var core []*mj.Node
 	fails := g.n(0, 4, "fails") > 0
 	if fails {
-		core = []*mj.Node{mj.Text("reached"), g.failure(), mj.Text("never")}
+		fail := g.failure()
+		if g.n(0, 9, "goRuntimeError") == 0 {
+			// a Go runtime error (nil map assignment) in a user function: directly inside a try it is a failure of
+			// the body like any other (only Execute itself hands such panics on)
+			fail = &mj.Node{K: "fail", Src: "rtpanicfn()", Class: "function-error"}
+			g.labels["failure:go-runtime-error-in-try"] = true
+		}
+		core = []*mj.Node{mj.Text("reached"), fail, mj.Text("never")}
 		g.labels["body-fails"] = true
 	} else {
 		core = []*mj.Node{mj.Text("fine")}
@@ -190,6 +201,11 @@ func (g *c13Gen) tryStmt(inBlockWithContent bool) []*mj.Node {
 	body := append([]*mj.Node{mj.Text("<try>"), mj.Let(bv, mj.Str("b"))}, g.path(depth, core)...)
 	body = append(body, mj.Text("</try>"))
 	n := &mj.Node{K: "try", Body: body}
+	if fails && g.n(0, 7, "silentBody") == 0 {
+		// a try body without a single text node or printing action: what its calls render is still all-or-nothing
+		n.Body = []*mj.Node{{K: "fail", Src: []string{`if includeIfExists("/inc/execfail.jet") }}{{ end`, `silentv := includeIfExists("/inc/execfail.jet")`, `if exec("/inc/execfail.jet") }}{{ end`, `silentv := exec("/inc/execfail.jet")`}[g.n(0, 3, "silentKind")], Class: "function-error"}}
+		g.labels["try-body-without-text"] = true
+	}
 	switch g.n(0, 3, "catch") {
 	case 0:
 	case 1:
@@ -320,7 +336,7 @@ func judgeC13(c c13Case) (v core.Verdict) {
 
 func TestC13(t *testing.T) {
 	core.Run(t, "C13",
-		"try statements whose body nests 0-4 of {range rebinding '.', range with := / = loop variables, if with declaration, block with parameters and context, yield with content, yielded block body, include with context, inner try (caught / failing in its catch)} around a failing action of any of 24 kinds (or none: success case), with no catch / catch / catch with variable (whose body may fail too), placed at top level, in a block invoked with content, in a range or in an include; probes after the statement print '.', variables, isset of every name declared inside, yield content and more text; oracle = MiniJet reference interpreter with transactional try; non-trivial = a failure below >=1 construct",
+		"try statements whose body nests 0-4 of {range rebinding '.', range with := / = loop variables, if with declaration, block with parameters and context, yield with content, yielded block body, include with context, inner try (caught / failing in its catch)} around a failing action of any of 30 kinds incl. a Go runtime error in a user function and output produced by calls inside conditions / assignments (or none: success case), also as the only statement of a body without any text, with no catch / catch / catch with variable (whose body may fail too), placed at top level, in a block invoked with content, in a range or in an include; probes after the statement print '.', variables, isset of every name declared inside, yield content and more text; oracle = MiniJet reference interpreter with transactional try; non-trivial = a failure below >=1 construct",
 		genC13, judgeC13)
 }
 
